@@ -443,15 +443,16 @@ func (c *simConn) Read(p []byte) (int, error) {
 }
 
 func (c *simConn) Write(p []byte) (int, error) {
-	select {
-	case <-c.closeCh:
-		return 0, &net.OpError{Op: "write", Net: "sim", Err: net.ErrClosed}
-	default:
-	}
+	// the hook sees every Write call ("handed to the connection"), also one that then fails
 	if c.onWrite != nil {
 		if err := c.onWrite(p); err != nil {
 			return 0, err
 		}
+	}
+	select {
+	case <-c.closeCh:
+		return 0, &net.OpError{Op: "write", Net: "sim", Err: net.ErrClosed}
+	default:
 	}
 	cp := append([]byte(nil), p...)
 	c.mu.Lock()
